@@ -208,7 +208,12 @@ def run(tier, seed):
     if dy:
       g_m = lambda mm: '(mkPM %s %s %s)' % (glist(list(mm.metrics.items()), lambda kv: gpair(gstr(kv[0]), gQf(kv[1].value))), gQf(mm.elapsed_secs), gZ(int(mm.steps)))
       g_r = '(mkRM %s %s %s %s)' % (glist(list(pr.metrics), lambda x: gpair(gstr(x.metric_id), gQf(x.value))), gZ(pr.elapsed_duration.seconds), gZ(pr.elapsed_duration.nanos), gZ(pr.step_count))
-      mcases.append('(%s, %s, %s)' % (g_m(m), g_r, g_m(back)))
+      # from_proto computes seconds + 1e-9 * nanos in floating point (1e-9 is not a binary fraction); the model is exact, so the
+      # value read back is compared at nanosecond resolution
+      g_b = '(mkPM %s %s %s)' % (glist(list(back.metrics.items()), lambda kv: gpair(gstr(kv[0]), gQf(kv[1].value))),
+                                 '(%d # %d)%%Q' % (lambda fr: (fr.numerator, fr.denominator))(Fraction(round(back.elapsed_secs * 10**9), 10**9)),
+                                 gZ(int(back.steps)))
+      mcases.append('(%s, %s, %s)' % (g_m(m), g_r, g_b))
       mobjs.append((metrics, es, steps))
   bad = C.run_cases('C09', 'ms', HDR + 'From VZ Require Import Model.WireEq.\n'
                     'Definition ck (c : pymeas * prmeas * pymeas) := let \'(m, r, b) := c in prmeas_eqb (meas_to_proto m) r && pymeas_eqb (meas_from_proto r) b.\n', mcases, 'ck')
